@@ -47,6 +47,10 @@ theorem C02_doubling_loop_hangs_above_2pow63 {j n maxCap : Nat} (hj : j ≤ 63) 
 theorem C02_doubling_loop_hangs_on_max_node {n maxCap : Nat} (hn : 0 < n) :
     handleFull (2 ^ 63) n maxCap = .hang := handleFull_hangs_max_node hn
 
+/-- with the repaired node constructor `_handle_full_queue` never builds a node of capacity `2^63`: that growth throws -/
+theorem C02_repaired_growth_below_2pow63 {cap n maxCap c : Nat} (h : handleFullR true cap n maxCap = .alloc c) :
+    c < 2 ^ 63 := handleFullR_alloc_lt h
+
 example : handleFull 1024 5000 (2 ^ 31) = .alloc 8192 ∧ handleFull 1024 5000 4096 = .throw ∧
     handleFull 2048 100 2048 = .null ∧ shrinkCap 4096 1000 = some 1024 ∧ shrinkCap 4096 3000 = none ∧
     handleFull (2 ^ 62) (2 ^ 63 + 1) (2 ^ 64 - 1) = .hang := by decide
